@@ -85,10 +85,11 @@ Theorem C09_model_total :
 Proof. exact rect_clip_lines_total. Qed.
 Print Assumptions C09_model_total.
 
-(* binary64 facts for |coordinates| <= 2^25: the cross products inside GetSegmentIntersection are exact ... *)
+(* binary64 facts for |coordinates| <= 2^25 (small_pt): the cross products inside GetSegmentIntersection are exact,
+   i.e. numerically equal (==) to the conversion of the exact integer cross product ... *)
 Theorem C09_crossF_exact_small :
   forall p1 p2 p3, small_pt p1 -> small_pt p2 -> small_pt p3 ->
-  crossF p1 p2 p3 = Z2F (cross p1 p2 p3).
+  PrimFloat.eqb (crossF p1 p2 p3) (Z2F (cross p1 p2 p3)) = true.
 Proof. exact crossF_exact. Qed.
 Print Assumptions C09_crossF_exact_small.
 
